@@ -7,6 +7,7 @@ EXTENDS Integers, Sequences, FiniteSets
 N     == [t |-> "none"]
 I(n)  == [t |-> "int", i |-> n]
 S(s)  == [t |-> "str", s |-> s]
+PN    == [t |-> "pynone"]                         \* the Python value None (N above is "nothing there": no override / missing target)
 L1    == [t |-> "list", n |-> 1]                  \* the mutable fallback [1]
 IL(e) == [t |-> "ilist", e |-> e]                 \* a list of ints: the value of a COLLECTION-typed alias / target (cfg.coll)
 IsColl(cfg) == "coll" \in DOMAIN cfg /\ cfg.coll
